@@ -396,18 +396,36 @@ package wal
 //@   props C08 C14
 //@   requires w.metrics != nil && w.metaDB != nil
 //@   ensures[C14.set-closed] w.closed != 0 ==> result == types.ErrClosed
+//@   ghostset g_set_len = len(val)
+//@   ghostset g_set_le64 = ite(len(val) == 8, LE64(val, 0), 0)
 //@   ensures[C20.stable-sets] (w.closed != 0 ==> counter("stable_sets") == old(counter("stable_sets"))) && (w.closed == 0 ==> counter("stable_sets") == old(counter("stable_sets")) + 1)
 
 //@ func (*WAL).Get
 //@   props C08 C14
 //@   requires w.metrics != nil && w.metaDB != nil
 //@   ensures[C14.get-closed] w.closed != 0 ==> result1 == types.ErrClosed && result0 == nil
+//@   ghostset g_get_len = len(result0)
+//@   ghostset g_get_le64 = ite(len(result0) == 8, LE64(result0, 0), 0)
+//@   ghostset g_under_err = result1
 //@   ensures[C20.stable-gets] (w.closed != 0 ==> counter("stable_gets") == old(counter("stable_gets"))) && (w.closed == 0 ==> counter("stable_gets") == old(counter("stable_gets")) + 1)
 
+//@ -- SetUint64/GetUint64 store the value as 8 little-endian bytes under the same
+//@ -- key space: what SetUint64 hands to Set decodes to the value, and GetUint64
+//@ -- decodes exactly what Get returned (0 for an unset key, an error for any
+//@ -- other length). g_set_*/g_get_* remember the last Set argument / Get result.
+//@ func (*WAL).SetUint64
+//@   props C08
+//@   requires w.metrics != nil && w.metaDB != nil
+//@   assigns *
+//@   ensures[C08.uint64-encoding] w.closed == 0 ==> g_set_len == 8 && uint64(g_set_le64) == val
 //@ func (*WAL).GetUint64
 //@   props C08
 //@   requires w.metrics != nil && w.metaDB != nil
-//@   ensures true
+//@   assigns *
+//@   ensures[C08.uint64-decoding] result1 == nil && g_get_len == 8 ==> result0 == uint64(g_get_le64)
+//@   ensures[C08.uint64-unset-is-zero] g_under_err == nil && g_get_len == 0 ==> result1 == nil && result0 == 0
+//@   ensures[C08.uint64-bad-length] g_under_err == nil && g_get_len != 0 && g_get_len != 8 ==> result1 != nil
+//@   ensures[C08.uint64-error-passthrough] g_under_err != nil ==> result1 == g_under_err
 
 // ---------------------------------------------------------------------------
 // wal.go — metadata transactions over the segment map
